@@ -25,5 +25,9 @@ Pos(f) == CHOOSE i \in DOMAIN AllOrder : AllOrder[i] = f
 Sound(ms, fs)    == \A i \in DOMAIN fs : fs[i] \in ZipSet => Needs(fs[i]) \subseteq ms
 Complete(ms, fs) == \A f \in ZipSet : Needs(f) \subseteq ms => \E i \in DOMAIN fs : fs[i] = f
 Ordered(fs)      == \A i, j \in DOMAIN fs : i < j => Pos(fs[i]) < Pos(fs[j])
+\* the model-archive row: a standard zip that holds a .json, a serialised model (.pt/.pth) and Python code
+MarName == "PyTorch model archive format"
+MarSound(isMar, fs)    == (\E i \in DOMAIN fs : fs[i] = MarName) => isMar
+MarComplete(isMar, fs) == isMar => \E i \in DOMAIN fs : fs[i] = MarName
 Known(fs)        == \A i \in DOMAIN fs : \E j \in DOMAIN AllOrder : AllOrder[j] = fs[i]
 =============================================================================
